@@ -63,9 +63,15 @@ fn huff_profile_cases(r: &mut Rng, t: Tier, fam: &str, ops: &[&str], extra: &[&s
             5 => r.range(2, 12) as usize,
             _ => r.range(40, 120) as usize,
         };
-        // frequencies: fibonacci-like (deep), geometric, uniform, one dominant
+        // frequencies: fibonacci-like (deep), geometric, uniform, one dominant, caterpillar
         let mut freqs: Vec<usize> = vec![];
-        let style = r.below(4);
+        let style = if i % 5 == 4 { 4 } else { r.below(4) };
+        // caterpillar: a chain of internal nodes, D-1 leaves hanging at every level (deep codes)
+        let alph = if style == 4 {
+            if fam == "hwt" { r.range(12, scale(t, 22, 28) as u64) as usize } else { 4 + 3 * r.range(6, scale(t, 10, 13) as u64) as usize }
+        } else {
+            alph
+        };
         let (mut a, mut b2) = (1usize, 1usize);
         for k in 0..alph {
             let f = match style {
@@ -78,18 +84,32 @@ fn huff_profile_cases(r: &mut Rng, t: Tier, fam: &str, ops: &[&str], extra: &[&s
                 }
                 1 => 1usize << (k.min(11)),
                 2 => r.range(1, 4) as usize,
-                _ => {
+                3 => {
                     if k == 0 {
                         2000
                     } else {
                         r.range(1, 3) as usize
                     }
                 }
+                _ => {
+                    if fam == "hwt" {
+                        // Fibonacci weights: binary code of depth alph - 1
+                        let f = a;
+                        let nx = a + b2;
+                        a = b2;
+                        b2 = nx;
+                        f
+                    } else if k < 4 {
+                        1
+                    } else {
+                        3usize.pow(((k - 4) / 3 + 1) as u32)
+                    }
+                }
             };
             freqs.push(f.max(1));
         }
         let total: usize = freqs.iter().sum();
-        let cap = scale(t, 30_000, 400_000);
+        let cap = if style == 4 { usize::MAX } else { scale(t, 30_000, 400_000) };
         if total > cap {
             let s = total / cap + 1;
             for f in freqs.iter_mut() {
